@@ -80,7 +80,9 @@ pub fn run(report: &Report, thorough: bool) -> Evidence {
         let mut total = HistStats::default();
         let ref_runs = AtomicU64::new(0);
         for (pi, (db, alpha, depth, english, init_store)) in plans.iter().enumerate() {
-            let keys: Vec<Ev> = alpha.chars().map(Ev::ch).collect();
+            let mut keys: Vec<Ev> = alpha.chars().map(Ev::ch).collect();
+            // a key without a character (keypad Enter): changes nothing, so it must not change the suggestion either
+            keys.push(Ev::key(crate::keys::by_name("VC_KP_ENTER").unwrap().code));
             let mut files = BTreeMap::new();
             if let Some(s) = init_store {
                 files.insert("phonetic-candidate-selection.json".to_string(), s.to_string());
@@ -134,10 +136,16 @@ pub fn run(report: &Report, thorough: bool) -> Evidence {
                         Ev::Key { sel, .. } => (false, *sel),
                         _ => (true, 0),
                     };
+                    // a final key without a character (keypad Enter): the default execution types the text
+                    // directly and then presses that same key with the same selection byte
+                    let noop_final: Option<u16> = match step.ev {
+                        Ev::Key { code, .. } if crate::keys::by_code(*code).map(|k| k.ch.is_none()).unwrap_or(false) => Some(*code),
+                        _ => None,
+                    };
                     // the learned selections the live context holds now
                     let snap = ctx.snapshot_json(1);
                     let sels = snap["selections"].clone();
-                    let key = format!("{}|{}|{}|{}", sels, text, final_is_bs, byte);
+                    let key = format!("{}|{}|{}|{}|{:?}", sels, text, final_is_bs, byte, noop_final);
                     let expected: Result<Rend, String> = REF.with(|rf| {
                         if let Some(v) = rf.borrow().get(&key) {
                             return v.clone();
@@ -165,13 +173,20 @@ pub fn run(report: &Report, thorough: bool) -> Evidence {
                             let mut shown: Option<Rend> = None;
                             let chars: Vec<char> = text.chars().collect();
                             let n = chars.len();
-                            let mut seq: Vec<(char, bool)> = chars.iter().enumerate().map(|(i, c)| (*c, i + 1 == n && !final_is_bs)).collect();
+                            let mut seq: Vec<(char, bool)> = chars.iter().enumerate().map(|(i, c)| (*c, i + 1 == n && !final_is_bs && noop_final.is_none())).collect();
                             if final_is_bs {
                                 seq.push(('a', false));
                             }
                             for (c, is_final) in seq {
                                 let sel = if is_final { byte } else { shown.as_ref().map(|r| r.sel().min(255) as u8).unwrap_or(0) };
                                 match twin.apply(&Ev::Key { code: crate::keys::code_for_char(c).unwrap(), m: 0, sel }) {
+                                    Ok(Out::Sugg(r)) => shown = Some(r),
+                                    Ok(_) => {}
+                                    Err(f) => return Err(format!("{:?}", f)),
+                                }
+                            }
+                            if let Some(code) = noop_final {
+                                match twin.apply(&Ev::Key { code, m: 0, sel: byte }) {
                                     Ok(Out::Sugg(r)) => shown = Some(r),
                                     Ok(_) => {}
                                     Err(f) => return Err(format!("{:?}", f)),
